@@ -66,6 +66,21 @@ def run(ctx, broken):
             draws = [draw_hex(rng) for _ in range(14)]
             cs.append({"line": prove_line(srs, size, b"many-pis", draws, 3, src, routes=True),
                        "tags": ["many-public-inputs", "pis=%d" % m] + (["zero-valued-pis"] if zeros else [])})
+    # a DENSE satisfied circuit: every gate brings six fresh full-width coefficients and the circuit fills the capacity of the
+    # parameters almost completely (the largest compressed description a given capacity has to admit), all three routes
+    for rep in range(1 if ctx.tier == "quick" else 4):
+        p = Prog()
+        for _ in range(20):
+            q = [rng.fe() for _ in range(6)]
+            if q[3] == 0:
+                q[3] = 1
+            a, b, d = p.w(rng.fe()), p.w(rng.fe()), p.w(rng.fe())
+            x = (q[0] * p.val(a) * p.val(b) + q[1] * p.val(a) + q[2] * p.val(b) + q[4] * p.val(d) + q[5]) % R
+            c = p.w((-x) * inv(q[3]) % R)
+            p.gate(q, None, a, b, c, d)
+        draws = [draw_hex(rng) for _ in range(14)]
+        cs.append({"line": prove_line(srs, 32, b"dense", draws, 3, p.src(), routes=True), "tags": ["dense-circuit-at-capacity"],
+                   "expect_proof": True})
     # gadget-heavy circuits through all three routes
     for i in range(2 if ctx.tier == "quick" else 12):
         p = PProg()
@@ -89,7 +104,7 @@ def run(ctx, broken):
     st = r.report()
     st["rule"] = ("constraint counts 2^k+off for k=3..%d, off in -8..8 (padding 6 / blinding 6 / next-power-of-two interplay), "
                   "SRS degree exactly sufficient and one too small, public inputs on the first user row / last row / adjacent rows / "
-                  "none, 15..40 (thorough: ..100) public inputs incl. zero-valued ones, random labels (0..64 bytes); gadget circuits (one with every widget), a circuit whose selectors are entries of the "
+                  "none, 15..40 (thorough: ..100) public inputs incl. zero-valued ones, random labels (0..64 bytes); a dense circuit at capacity (six fresh full-width coefficients per gate), gadget circuits (one with every widget), a circuit whose selectors are entries of the "
                   "compressed format's built-in dictionary. Per case the real compile+prove (scripted RNG) must give the "
                   "byte-identical proof of the Lean specification prover, its own verifier and the Lean model verifier must accept, "
                   "keys compiled from the compressed description and keys decoded from bytes must be identical and prove/verify "
